@@ -186,3 +186,60 @@ fn snap(c: &Client, w: &World, pool_ids: &[nostr::EventId], wids: &[nostr::Event
     let g = c.group_obs(&w.gid);
     StateRec { key_hash: h64(&key), obs_hash: 0, g, dedup: vec![], snap_queue: vec![], snap_stored: vec![], depth: 0, parent: None, key_json: None, auto_pending: false, send_ok: None, foreign_msgs: 0, welcome_states: vec![], welcome_dedup: vec![] }
 }
+
+/// Restart positions on one unforked client. The pair search above forks both replicas between any two steps
+/// (a fork gives a new connection), so what a call leaves behind *on the connection* (an open transaction, an
+/// unreleased savepoint) never reaches the next call there. Here one client keeps its connection through the
+/// whole winning-branch history, delivered in canonical order; for every position k the same history is run with
+/// a real restart (close = discard the connection, reopen the file) after step k, and must end in the same state
+/// with the same results.
+pub fn linear_restarts(w: &World, member: &str, rep: &mut Report) {
+    let wids = w.welcome_ids();
+    let spine_events: Vec<usize> = w.settle_order.iter().copied().filter(|i| {
+        let p = &w.pool[*i];
+        match p.kind {
+            EvKind::Commit => p.child.as_ref().map(|c| crate::props_e1::on_spine(w, c)).unwrap_or(false),
+            _ => crate::props_e1::on_spine(w, &p.node),
+        }
+    }).collect();
+    // causal order: by depth of the node the event was created in, commits after the messages/proposals of their node
+    let mut seq = spine_events.clone();
+    seq.sort_by_key(|i| (w.pool[*i].node.len(), w.pool[*i].kind == EvKind::Commit, *i));
+    let n = seq.len();
+    let run = |restart_after: Option<usize>| -> (Vec<String>, String) {
+        let mut c = w.initial[member].fork();
+        let mut results = Vec::new();
+        for (k, i) in seq.iter().enumerate() {
+            let out = step_on(w, c, Action::Deliver(*i));
+            results.push(out.result);
+            c = out.client;
+            if restart_after == Some(k) {
+                c = c.restart();
+            }
+        }
+        (results, c.obs(&wids).to_string())
+    };
+    let (ref_results, ref_obs) = run(None);
+    for k in 0..n {
+        let (res, obs) = run(Some(k));
+        rep.case(&format!("linear|{}|restart-after-step-{k}|{}", w.sc.name, res.join("+")));
+        rep.evaluations += 1;
+        let step_class = event_class(w, member, seq[k]);
+        if res != ref_results {
+            let first = (0..n).find(|j| res[*j] != ref_results[*j]).unwrap_or(0);
+            rep.finding(
+                format!("C11|unforked-history|result-differs|restart-after({step_class})|at({})|never-restarted={}|restarted={}", event_class(w, member, seq[first]), ref_results[first], res[first]),
+                format!("member {member}: history [{}] on one connection; with a restart after step {k} ({}) step {first} answers {} instead of {}", seq.iter().map(|i| w.pool[*i].label.clone()).collect::<Vec<_>>().join(" ; "), w.pool[seq[k]].label, res[first], ref_results[first]),
+                json!({"scenario": w.sc, "backend": "Sqlite", "member": member, "sequence": seq, "restart_after_step": k}),
+            );
+        } else if obs != ref_obs {
+            rep.finding(
+                format!("C11|unforked-history|obs-differs|restart-after({step_class})"),
+                format!("member {member}: history [{}] on one connection; with a restart after step {k} ({}) the final observable state differs from the run without restart", seq.iter().map(|i| w.pool[*i].label.clone()).collect::<Vec<_>>().join(" ; "), w.pool[seq[k]].label),
+                json!({"scenario": w.sc, "backend": "Sqlite", "member": member, "sequence": seq, "restart_after_step": k, "never_restarted": ref_obs, "restarted": obs}),
+            );
+        }
+    }
+    rep.states += n as u64;
+    rep.transitions += (n * (n + 1)) as u64;
+}
